@@ -403,7 +403,10 @@ fn boxed_one<H: Header>(hdr: H, slices: &[&[u8]], size_of: impl Fn(&H) -> usize)
 /// BOXED <kind> <hex header image> <hex,hex,... content slices>
 pub fn boxed_case(t: &[&str]) -> String {
     let hb = unhex(t[2]);
-    let parts: Vec<Vec<u8>> = t.get(3).copied().unwrap_or("").split(',').filter(|s| !s.is_empty()).map(unhex).collect();
+    // `-` = no slices at all; otherwise comma separated, `e` = an EMPTY slice (kept: empty slices are part of the domain)
+    let arg = t.get(3).copied().unwrap_or("-");
+    let parts: Vec<Vec<u8>> =
+        if arg == "-" { Vec::new() } else { arg.split(',').map(|s| if s == "e" || s.is_empty() { Vec::new() } else { unhex(s) }).collect() };
     let refs: Vec<&[u8]> = parts.iter().map(|v| v.as_slice()).collect();
     let kind = t[1].to_string();
     guarded(move || match kind.as_str() {
